@@ -506,7 +506,11 @@ func Main(t *testing.T, h Harness) {
 		seed := simrt.Mix(base, uint64(i))
 		rng := simrt.NewRand(seed)
 		sc, cfg := h.Generate(rng, prop, tier)
-		res := RunOne(t, h, prop, tier, sc, cfg, seed, nil, false)
+		traceThis := os.Getenv("VERIF_TRACE_RUN") == strconv.FormatInt(i, 10)
+		res := RunOne(t, h, prop, tier, sc, cfg, seed, nil, traceThis)
+		if traceThis {
+			os.WriteFile(os.Getenv("VERIF_OUT")+".trace", []byte(strings.Join(res.Trace, "\n")), 0o644)
+		}
 		out.Runs++
 		if os.Getenv("VERIF_DET") != "" {
 			var sigs []string
